@@ -567,7 +567,7 @@ def gen_plan(seed: int, mode: str, scale: int = 1):
         p = rng.choice(projects)
         tasks.append(api_task(p) if rng.chance(0.6) else cli_task(p))
     if mode == "c09" and cfg.chance(0.6):
-        cands = [p for p in projects if p.origin in ("generated",) or p.origin.startswith("corpus:")] or projects
+        cands = [p for p in projects if p.origin in ("generated", "template") or p.origin.startswith("corpus:")] or projects
         tasks.append(sweep_task(rng.choice(cands)))
     p_restart = cfg.choice([0.0, 0.03, 0.08])
     p_jitter = cfg.choice([0.0, 0.1, 0.25])
